@@ -17,6 +17,8 @@ C = 'src/connection.rs'
 S = 'src/server.rs'
 R = 'src/request.rs'
 P = 'src/response.rs'
+T = 'src/router.rs'
+M = 'src/common/mod.rs'
 
 MUTANTS = [
     # ---- connection.rs read path
@@ -74,6 +76,24 @@ MUTANTS = [
     ('cc-write-failure-not-closed', 'client', S, '                // Writing to the stream failed so it will be removed.\n                self.state = ClientConnectionState::Closed;', '                // Writing to the stream failed so it will be removed.', {'C09'}),
     ('cc-read-no-switch', 'client', S, '        if self.connection.pending_write() {\n            self.state = ClientConnectionState::AwaitingOutgoing;\n        }\n', '', {'C13'}),
     # ---- harmless edits: nothing may fire
+    # ---- router.rs (C17)
+    ('rt-overwrite', 'router', T, 'Entry::Occupied(_) => Err(RouteError::HandlerExist(full_path)),', 'Entry::Occupied(mut e) => { e.insert(handler); Ok(()) }', {'C17'}),
+    ('rt-no-server', 'router', T, '        response.set_server(&self.server_id);\n', '', {'C17'}),
+    ('rt-404-status', 'router', T, 'Response::new(Version::Http11, StatusCode::NotFound)', 'Response::new(Version::Http11, StatusCode::BadRequest)', {'C17'}),
+    ('rt-404-version', 'router', T, 'Response::new(Version::Http11, StatusCode::NotFound)', 'Response::new(Version::Http10, StatusCode::NotFound)', None),
+    ('rt-method-ignored', 'router', T, 'format!("{}:{}{}", method.to_str(), self.prefix, path)', 'format!("{}:{}{}", Method::Get.to_str(), self.prefix, path)', {'C17'}),
+    ('rt-prefix-after-path', 'router', T, 'format!("{}:{}{}", method.to_str(), self.prefix, path)', 'format!("{}:{}{}", method.to_str(), path, self.prefix)', {'C17'}),
+    ('rt-content-type-plain', 'router', T, 'media_type: MediaType::ApplicationJson,', 'media_type: MediaType::PlainText,', {'C17'}),
+    ('rt-server-id-swapped', 'router', T, '            server_id,\n            prefix,', '            server_id: prefix.clone(),\n            prefix,', {'C17'}),
+    ('rt-to-str-spelling', 'router', M, 'Method::Patch => "PATCH",\n        }\n    }\n}', 'Method::Patch => "PUT",\n        }\n    }\n}', {'C17'}),
+    ('rt-benign-iflet', 'router', T, """        let mut response = match self.routes.get(&path) {
+            Some(route) => route.handle_request(request, argument),
+            None => Response::new(Version::Http11, StatusCode::NotFound),
+        };""", """        let mut response = if let Some(route) = self.routes.get(&path) {
+            route.handle_request(request, argument)
+        } else {
+            Response::new(Version::Http11, StatusCode::NotFound)
+        };""", None),
     ('benign-comment', 'conn', C, '        // Update `read_cursor`.', '        // Update `read_cursor` (number of carried bytes).', None),
     ('benign-reorder-reset', 'conn', C, '        self.body_vec.clear();\n        self.body_bytes_to_be_read = 0;', '        self.body_bytes_to_be_read = 0;\n        self.body_vec.clear();', None),
     ('benign-clear-loop-short', 'conn', C, 'for cursor in delta_bytes..end_cursor {', 'for cursor in delta_bytes..end_cursor - 1 {', None),
